@@ -47,7 +47,35 @@ pub fn oracle_jacobians<T: Sc>(spec: &ProblemSpec, alpha: &[f64], c: &Mat) -> (M
 
 /// problem classes: "well-determined" (shapes over (M,P) in 1..5 x 1..4 with shared parameters,
 /// small degrees of freedom), "lmfit-like" decays, and "over-parameterised/noisy"
-pub fn gen_stat_spec(rng: &mut Rng) -> Option<(ProblemSpec, &'static str)> {
+pub fn gen_stat_spec(rng: &mut Rng, is_f64: bool) -> Option<(ProblemSpec, &'static str)> {
+    let (mut spec, class) = gen_stat_spec_inner(rng)?;
+    // badly scaled variants: observations in tiny or huge units, weights in other units. The
+    // statistics are equivariant under such scalings; conditioning is judged after column scaling.
+    if rng.chance(0.25) {
+        // f32 has only ~1e±38 of range and the statistics square the units: keep its scalings modest
+        let span = if is_f64 { 19.0 } else { 5.0 };
+        let f = 10f64.powf(rng.range(-span, span).round());
+        spec.y = spec.y.scale(f);
+        if let (true, Some(w)) = (rng.chance(0.4), spec.w.as_mut()) {
+            let g = 10f64.powf(rng.range(-span / 2.5, span / 2.5).round());
+            for v in w.iter_mut() {
+                *v *= g;
+            }
+        }
+        return Some((spec, class_scaled(class)));
+    }
+    Some((spec, class))
+}
+
+fn class_scaled(c: &'static str) -> &'static str {
+    match c {
+        "shape sweep" => "shape sweep (badly scaled units)",
+        "separated decays" => "separated decays (badly scaled units)",
+        _ => "over-parameterised noisy (badly scaled units)",
+    }
+}
+
+fn gen_stat_spec_inner(rng: &mut Rng) -> Option<(ProblemSpec, &'static str)> {
     let class = rng.below(10);
     if class < 6 {
         let m = rng.int(1, 5);
@@ -106,4 +134,26 @@ pub fn fit_stats<T: Sc>(spec: &ProblemSpec, cfg: &LmCfg, class: &'static str) ->
         }
         Err(f) => Some(Err(f.termination())),
     }
+}
+
+/// Column-equilibrated view of the weighted model Jacobian: d_i = |h_i|, G = (H D^-1)^T (H D^-1)
+/// and its condition number. Cholesky-based inversion is accurate relative to *this* condition
+/// number (van der Sluis), so badly scaled but otherwise well-posed problems stay decidable.
+pub fn scaled_normal_matrix(h: &Mat) -> Option<(Vec<f64>, Mat, f64)> {
+    if !h.all_finite() {
+        return None;
+    }
+    let d: Vec<f64> = (0..h.c).map(|j| crate::la::norm2(h.col(j))).collect();
+    if d.iter().any(|v| !(*v > 0.0) || !v.is_finite()) {
+        return None;
+    }
+    let hs = Mat::from_fn(h.r, h.c, |i, j| h.at(i, j) / d[j]);
+    let g = hs.tmul(&hs);
+    let (ev, _) = crate::la::sym_eig(&g);
+    let lmax = ev.iter().cloned().fold(f64::MIN, f64::max);
+    let lmin = ev.iter().cloned().fold(f64::MAX, f64::min);
+    if !(lmin > 0.0) {
+        return None;
+    }
+    Some((d, g, lmax / lmin))
 }
